@@ -69,7 +69,26 @@ def online_world(dc: refserver.ReferenceDC, legs, header_len, now_ns, rng, chunk
     async def open_connection(server, port=135):
         conn = dc.connect(port)
         reader = asyncio.StreamReader()
-        w = rpcsim.FakeWriter(lambda data: reader.feed_data(conn.feed(data)))
+        def deliver(data):
+            reply = conn.feed(data)
+            if not chunked or len(reply) < 2:
+                reader.feed_data(reply)
+                return
+            # the reply arrives in several TCP segments, the client task running between them (each segment is fed by a callback
+            # that schedules the next one, so the reader wakes up after every segment)
+            cuts, off = [], 0
+            while off < len(reply):
+                k = max(1, min(len(reply) - off, rng.choice([1460, 1460, 1, 7, 16, 100, 600])))
+                cuts.append(reply[off:off + k])
+                off += k
+            loop = asyncio.get_running_loop()
+
+            def feed(i):
+                reader.feed_data(cuts[i])
+                if i + 1 < len(cuts):
+                    loop.call_soon(feed, i + 1)
+            feed(0)
+        w = rpcsim.FakeWriter(deliver)
         return reader, w
 
     aio = types.SimpleNamespace(**{k: getattr(asyncio, k) for k in dir(asyncio) if not k.startswith("__")})
